@@ -78,3 +78,16 @@ impl Client {
         StreamBuilder::new(self.clone(), RequestorWantsRequestEncoder::new(endpoint))
     }
 }
+
+#[cfg(selium_verif)]
+impl Client {
+    /// Verification hook (fault injection): closes the client's current QUIC connection, as a
+    /// network failure would. Compiled only with `--cfg selium_verif`.
+    pub async fn verif_close_connection(&self) {
+        self.connection
+            .lock()
+            .await
+            .conn()
+            .close(0u32.into(), b"verif: injected connection loss");
+    }
+}
